@@ -63,7 +63,12 @@ def hostile_rpfm(rng):
 
 
 def hostile_http(rng, oaddr):
-    k = rng.randrange(10)
+    k = rng.randrange(11)
+    if k == 10:
+        # well-formed request with unusual but valid text in the authority and in header values
+        name = odd_text(rng).decode().encode()
+        return (b"CONNECT " + rng.choice([oaddr.encode(), name + b":80"]) + b" HTTP/1.1\r\nHost: " + rng.choice([oaddr.encode(), name]) +
+                b"\r\nProxy-Authorization: Basic " + odd_text(rng) + b"\r\nUser-Agent: " + odd_text(rng) + b"\r\n\r\n")
     base = rc.http_connect(oaddr)
     if k == 0:
         return mutate(rng, base)
@@ -96,8 +101,36 @@ def hostile_http(rng, oaddr):
     return mutate(rng, base, True) + mutate(rng, base)
 
 
+def odd_text(rng, maxlen=255):
+    """valid UTF-8 with a multi-byte character straddling an arbitrary byte offset (code that cuts, pads or counts decoded
+    text at a fixed byte position must cope): n ASCII bytes, one 2-4 byte character, then a mixed tail"""
+    n = rng.choice([rng.randint(0, 70), rng.choice([126, 127, 128, 250, 251, 252, 253])])
+    ch = rng.choice(["\u00e9", "\u20ac", "\u65e5", "\U0001f600"])
+    tail = "".join(rng.choice(["a", "\u00e9", "\u20ac", "\U0001f600", "."]) for _ in range(rng.choice([0, 1, 5, 40])))
+    b = ("a" * n + ch + tail).encode()[:maxlen]
+    while True:
+        try:
+            b.decode()
+            return b
+        except UnicodeDecodeError:
+            b = b[:-1]
+
+
 def hostile_socks(rng, oip, oport):
-    k = rng.randrange(10)
+    k = rng.randrange(12)
+    if k == 10:
+        # well-formed messages carrying unusual but valid text: user name, password, SOCKS4 id, domain name
+        which = rng.randrange(4)
+        if which == 0:
+            return rc.socks5_greeting([2]) + rc.socks5_userpass(odd_text(rng), rng.choice([b"p", odd_text(rng)])) + rc.socks5_request(1, oip, oport)
+        if which == 1:
+            return rc.socks5_greeting([rng.choice([0, 2])]) + rc.socks5_userpass(b"alice", odd_text(rng)) + rc.socks5_request(1, oip, oport)
+        if which == 2:
+            return rc.socks4_request(1, oip, oport, odd_text(rng, 300))
+        name = odd_text(rng)
+        return rc.socks5_greeting([0]) + bytes([5, 1, 0, 3, len(name)]) + name + bytes([oport >> 8, oport & 255])
+    if k == 11:
+        return rc.socks5_greeting([0, 2]) + rc.socks5_userpass(odd_text(rng), odd_text(rng)) + rc.socks5_request(1, oip, oport)
     v5 = rc.socks5_greeting([0]) + rc.socks5_request(1, oip, oport)
     if k == 0:
         return mutate(rng, v5)
